@@ -1,4 +1,5 @@
 import PrysmVerif.Model.C03
+import PrysmVerif.Lemmas.C01Bridge
 import Mathlib.Tactic.Ring
 import Mathlib.Tactic.FieldSimp
 import Mathlib.Algebra.BigOperators.Ring.Finset
@@ -8,8 +9,9 @@ import Mathlib.Algebra.BigOperators.Intervals
 -/
 namespace C03Lemmas
 
-/-- every field is a `Num` (scoped: `open C03Lemmas` to use it) -/
-scoped instance (priority := 100) fieldNum {K : Type} [Field K] : Num K := { ofInt := fun i => (i : K) }
+/-! every field is a `Num` through `C01.numOfField` (the scoped instance of `Lemmas/C01Bridge.lean`; activate it with
+`open scoped C01`), so that the chirp-Z / matrix-DFT lemmas of C01 apply to the C03 / C05 models without instance mismatch -/
+open scoped C01
 
 variable {K : Type} [Field K]
 
